@@ -1,3 +1,3 @@
-// C02 part 2: element types selected by C02_PART (see C02_linalg.cpp)
-#define C02_PART 2
+// C02 part 4: element types selected by C02_PART (see C02_linalg.cpp, which is the whole harness)
+#define C02_PART 4
 #include "C02_linalg.cpp"
